@@ -186,7 +186,9 @@ def _same_num(a, b, tol=TOL, rel=False):
         return None
     scale = float(np.nanmax(np.abs(b))) if rel else 1.0
     d = np.where(na, 0.0, np.abs(a - b))
-    if np.max(d) > tol * max(scale, 1e-300 if rel else 1.0):
+    # rel: used for (co)variances of similarity values (magnitude <= ~1, round-off 1e-16 each): covariance entries of
+    # size ~1e-32 are squared round-off and differ between summation orders, so the relative scale has the floor 1e-22
+    if np.max(d) > tol * max(scale, 1e-22 if rel else 1.0):
         w = np.unravel_index(int(np.argmax(d)), d.shape)
         return f'entry {tuple(int(i) for i in w)} is {float(a[w])!r} but must be {float(b[w])!r}'
     return None
